@@ -142,12 +142,13 @@ def negInner {β : Type} : List (String × β) → Option β
 
 /-- `Kind()` of every type; `GenericTuple.Kind` (repaired): a wrapper `(@neg: x)` has kind `-x.Kind()`
 unless `x` is itself a wrapper -/
+def negKind : Option Int → Int
+  | some k => if k > 0 then -k else kGenericTuple
+  | none => kGenericTuple
+
 def kindAlg : RepF Int → Int
   | .num _ => kNumber
-  | .gtuple as =>
-    match negInner as with
-    | some k => if k > 0 then -k else kGenericTuple
-    | none => kGenericTuple
+  | .gtuple as => negKind (negInner as)
   | .charT _ _ => kCharT
   | .byteT _ _ => kByteT
   | .itemT _ _ => kItemT
@@ -278,10 +279,11 @@ def optKey : Option K → K
 def attrsKey (as : List (String × K)) : List K :=
   (isort (fun p q => strLt p.1 q.1) as).flatMap (fun p => [K.name p.1, p.2])
 
-def tupleKeyAlg (as : List (String × K)) : K :=
-  match negInner as with
+def negKey (as : List (String × K)) : Option K → K
   | some k => if K.kindOf k > 0 then .node [.int (-(K.kindOf k)), .rev k] else .node (.int kGenericTuple :: attrsKey as)
   | none => .node (.int kGenericTuple :: attrsKey as)
+
+def tupleKeyAlg (as : List (String × K)) : K := negKey as (negInner as)
 
 /-- the key of an entry `key :: values` (an entry without a key is not constructible; it reads as key `{}`) -/
 def entryHead : List K → K
@@ -355,6 +357,11 @@ def valuesLoop (eqv rec : Rep → Rep → Bool) : List Rep → List Rep → Opti
   | _ :: _, [] => some false
   | x :: xs, y :: ys => if !eqv x y then some (rec x y) else valuesLoop eqv rec xs ys
 
+/-- `some r`: decided; `none`: go on with `d` -/
+def optOr : Option Bool → Bool → Bool
+  | some r, _ => r
+  | none, d => d
+
 def entryHeadR : List Rep → Rep
   | k :: _ => k
   | [] => .empty
@@ -365,9 +372,7 @@ def dictLoop (eqv rec : Rep → Rep → Bool) : List (List Rep) → List (List R
   | _ :: _, [] => false
   | e :: es, f :: fs =>
     if !eqv (entryHeadR e) (entryHeadR f) then rec (entryHeadR e) (entryHeadR f)
-    else match valuesLoop eqv rec (isort rec e.tail) (isort rec f.tail) with
-      | some r => r
-      | none => dictLoop eqv rec es fs
+    else optOr (valuesLoop eqv rec (isort rec e.tail) (isort rec f.tail)) (dictLoop eqv rec es fs)
 
 /-- `valuesToTuple`: a positional row as a tuple -/
 def rowTuple (ns : List String) (row : List Rep) : Rep := .gtuple (zipNames ns row)
@@ -387,6 +392,13 @@ def rowsLoop (rec : Rep → Rep → Bool) : List Rep → List Rep → Bool
   | a :: as, b :: bs => if rec a b then true else if rec b a then false else rowsLoop rec as bs
   | _, _ => false
 
+/-- the `(@neg: x)` branch of `GenericTuple.Less`:
+`if y, ok := v.(Tuple).Get(negateTag); ok { return y.Less(x) }` -/
+def negLoop (rec : Rep → Rep → Bool) (as bs : List (String × Rep)) : Bool :=
+  match negInner as, negInner bs with
+  | some x, some y => rec y x
+  | _, _ => false                          -- Go panics; unreachable: a negative kind is a wrapper
+
 /-- one `Less` method body (receiver `a`), nested `Less` calls replaced by `rec`, `Equal` by `eqv` -/
 def lessStep (eqv rec : Rep → Rep → Bool) (a b : Rep) : Bool :=
   -- every method starts with: `if x.Kind() != v.Kind() { return x.Kind() < v.Kind() }`
@@ -394,11 +406,7 @@ def lessStep (eqv rec : Rep → Rep → Bool) (a b : Rep) : Bool :=
   else match a, b with
   | .num x, .num y => decide (x < y)
   | .gtuple as, .gtuple bs =>
-    if kind a < 0 then
-      -- `if y, ok := v.(Tuple).Get(negateTag); ok { return y.Less(x) }`
-      match negInner as, negInner bs with
-      | some x, some y => rec y x
-      | _, _ => false                      -- Go panics; unreachable: a negative kind is a wrapper
+    if kind a < 0 then negLoop rec as bs
     else
       tupleLoop rec (isort (fun p q => strLt p.1 q.1) as) (isort (fun p q => strLt p.1 q.1) bs)
   | .charT i c, .charT j d => if i ≠ j then decide (i < j) else decide (c < d)
@@ -668,5 +676,103 @@ def ofLitRows : List (List Lit) → List (List Rep)
 end
 
 end Impl
+
+/-! ## The `Less` rules before the repairs (kept as witnesses; `Proofs/C06.trichotomy_false_before_repair_*`) -/
+namespace Old
+
+def ctorId : Rep → Nat
+  | .num _ => 0 | .gtuple _ => 1 | .charT _ _ => 2 | .byteT _ _ => 3 | .itemT _ _ => 4 | .entryT _ _ => 5
+  | .empty => 6 | .true_ => 7 | .generic _ => 8 | .str _ _ => 9 | .bytes _ _ => 10 | .array _ _ => 11
+  | .dict _ => 12 | .relation _ _ => 13 | .union _ => 14
+
+/-- `GenericTuple.Kind` before the repair: `-x.Kind()` for every wrapper, also a wrapper of a wrapper -/
+def kindAlg : RepF Int → Int
+  | .gtuple as =>
+    match negInner as with
+    | some k => -k
+    | none => kGenericTuple
+  | r => C06.kindAlg r
+
+def kind : Rep → Int := cata kindAlg
+
+def isTupleOrNumber : Rep → Bool
+  | .num _ | .gtuple _ | .charT _ _ | .byteT _ _ | .itemT _ _ | .entryT _ _ => true
+  | _ => false
+
+/-- `string(s.s)`: a hole (negative rune), a surrogate or an out-of-range rune all become U+FFFD -/
+def runeOfString (c : Int) : Int :=
+  if c < 0 || (0xD800 ≤ c && c ≤ 0xDFFF) || c > 0x10FFFF then 0xFFFD else c
+
+/-- `Array.Less` before the repair: a hole in both arrays ends the comparison with `false` -/
+def arrayLoop (rec : Rep → Rep → Bool) : List (Option Rep) → List (Option Rep) → Bool
+  | [], bs => !bs.isEmpty
+  | _ :: _, [] => false
+  | av :: as, bv :: bs =>
+    match bv, av with
+    | none, none => false                  -- `if bv == nil { return av != nil }`
+    | none, some _ => true
+    | some _, none => false
+    | some y, some x => if rec x y then true else if rec y x then false else arrayLoop rec as bs
+
+/-- rows of a relation in `ArrayEnumerator` order: sorted cell by cell in the column order of `attrs` -/
+def cellsLoop (rec : Rep → Rep → Bool) : List Rep → List Rep → Bool
+  | [], bs => !bs.isEmpty
+  | _ :: _, [] => false
+  | a :: as, b :: bs => if rec a b then true else if rec b a then false else cellsLoop rec as bs
+
+def lessStep (eqv rec : Rep → Rep → Bool) (a b : Rep) : Bool :=
+  match a with
+  | .empty =>                               -- EmptySet.Less: bespoke
+    match b with
+    | .empty => false
+    | _ => !isTupleOrNumber b
+  | .true_ =>                               -- TrueSet.Less: bespoke
+    match b with
+    | .true_ | .empty => false
+    | _ => !isTupleOrNumber b
+  | _ =>
+  if kind a ≠ kind b then decide (kind a < kind b)
+  else match a, b with
+  | .num x, .num y => decide (x < y)
+  | .gtuple as, .gtuple bs =>
+    match negInner as, negInner bs with
+    | some x, some y => rec y x
+    | some _, none => false                 -- panics
+    | none, _ =>
+      Impl.tupleLoop rec (isort (fun p q => strLt p.1 q.1) as) (isort (fun p q => strLt p.1 q.1) bs)
+  | .charT i c, .charT j d => if i ≠ j then decide (i < j) else decide (c < d)
+  | .byteT i c, .byteT j d => if i ≠ j then decide (i < j) else decide (c < d)
+  | .itemT i x, .itemT j y => if i ≠ j then decide (i < j) else rec x y
+  | .entryT k v, .entryT k' v' => if !eqv k k' then rec k k' else rec v v'
+  | .generic xs, .generic ys => Impl.lexLoop rec (isort rec xs) (isort rec ys)
+  | .str s _, .str t _ => Impl.intsLoop (s.map runeOfString) (t.map runeOfString)   -- `s.String() < v.String()`
+  | .bytes _ _, .bytes _ _ => false         -- panics: `v.(*Bytes)`
+  | .array vs off, .array ws off' =>
+    if off ≠ off' then decide (off < off') else arrayLoop rec vs ws
+  | .dict m, .dict m' =>
+    Impl.dictLoop eqv rec (isort (fun e f => rec (Impl.entryHeadR e) (Impl.entryHeadR f)) m)
+      (isort (fun e f => rec (Impl.entryHeadR e) (Impl.entryHeadR f)) m')
+  | .relation ns rows, .relation ns' rows' =>
+    if Impl.lessNames ns ns' && !Impl.equalNames ns ns' then true
+    else if rows.length ≠ rows'.length then decide (rows.length < rows'.length)
+    else Impl.rowsLoop rec ((isort (cellsLoop rec) rows).map (Impl.rowTuple ns))
+           ((isort (cellsLoop rec) rows').map (Impl.rowTuple ns'))
+  | .union xs, .union ys => Impl.lexLoop rec (isort rec xs) (isort rec ys)
+  | _, _ => false                           -- equal kinds, different Go types: the type assertion panics
+
+def lessN : Nat → Rep → Rep → Bool
+  | 0, _, _ => false
+  | n + 1, a, b => lessStep Impl.equal (lessN n) a b
+
+def less (a b : Rep) : Bool := lessN (max (depth a) (depth b) + 1) a b
+
+/-- the top-level call panics: `Bytes.Less` on two byte arrays, or a failed type assertion after a kind collision -/
+def panics (a b : Rep) : Bool :=
+  match a, b with
+  | .empty, _ | .true_, _ => false
+  | .bytes _ _, .bytes _ _ => true
+  | _, _ => kind a == kind b && ctorId a != ctorId b
+
+end Old
 
 end Arrai.C06
